@@ -59,7 +59,7 @@ def replay (j : Json) : R Verdict := do
   let okExit := exitCode == some 0
   match (fieldD exp "exit").getStr?.toOption with
   | some "ok" => if !okExit then
-      pf := ((if family == "kill-after" then "C07" else "C16"), s!"expected a successful run, got exit status {(fieldD obs "exitCode").compress}: {((fieldD obs "stderrTail").getStr?.toOption.getD "").takeEnd 160}") :: pf
+      pf := ((if family == "kill-after" || family == "kill-huge" then "C07" else "C16"), s!"expected a successful run, got exit status {(fieldD obs "exitCode").compress}: {((fieldD obs "stderrTail").getStr?.toOption.getD "").takeEnd 160}") :: pf
   | some "fail" => if okExit then
       pf := ((if family == "failure" then "C06" else if family == "kill-zero" then "C07" else "C16"),
              (if family == "kill-zero" then "with a per-evaluation limit of zero every evaluation exceeds its limit, yet the run succeeded: evaluations were not ended at their time limit"
